@@ -9,5 +9,6 @@ while [ $s -le $b ]; do
     if [ $rc -ne 0 ]; then echo "seed=$s $p rc=$rc"; echo "$out" | grep -v conda | head -12; fi
   done
   echo "seed $s done"
+  tools/trim_cache.sh 90
   s=$((s+1))
 done
